@@ -147,7 +147,8 @@ def verdict(before, after):
 def signature(obj):
     f = obj.get("features", {})
     if f.get("uses_helper") and not f.get("same_module"):
-        return "movemethod:uses-global-of-source-module"
+        # predicted failure: the moved body names the helper, which the destination module does not have
+        return "movemethod:uses-global-of-source-module:" + obj.get("failure", "?")
     return "movemethod:" + ",".join(k for k in sorted(f) if f[k] is True)
 
 
@@ -172,7 +173,8 @@ def run(ctx):
             continue
         bad = verdict(before, after)
         if bad:
-            obj = {"kind": "movemethod", "files": proj["files"], "amod": proj["amod"], "features": proj["features"]}
+            obj = {"kind": "movemethod", "files": proj["files"], "amod": proj["amod"], "features": proj["features"],
+                   "failure": ("NameError:helper" if "NameError: name 'helper'" in bad else "other")}
             ctx.violation(obj, "C05 MoveMethod: " + bad)
         if ctx.too_many():
             break
